@@ -297,6 +297,7 @@ func TestResults(t *testing.T) {
 		c := genCase(t)
 		st.Journal(map[string]any{"kind": "results", "case": c})
 		if err := runCase(c, st); err != nil {
+			ev.G().PinLast()
 			t.Fatalf("C03 violated: %v", err)
 		}
 	})
@@ -337,6 +338,7 @@ func TestCanPairs(t *testing.T) {
 		c.History = h
 		st.Journal(map[string]any{"kind": "results", "case": c})
 		if err := runCase(c, st); err != nil {
+			ev.G().PinLast()
 			t.Fatalf("C03 violated: %v", err)
 		}
 	})
@@ -489,6 +491,7 @@ func TestPhases(t *testing.T) {
 		}
 		st.Journal(map[string]any{"kind": "phase", "case": c})
 		if err := phaseCase(c, st); err != nil {
+			ev.G().PinLast()
 			t.Fatalf("C03 violated: %v", err)
 		}
 	})
@@ -517,6 +520,7 @@ func TestReplay(t *testing.T) {
 			t.Fatal(err)
 		}
 		if err := runCase(c, nil); err != nil {
+			ev.G().PinLast()
 			t.Fatalf("C03 violated: %v", err)
 		}
 	case "phase":
@@ -525,6 +529,7 @@ func TestReplay(t *testing.T) {
 			t.Fatal(err)
 		}
 		if err := phaseCase(c, nil); err != nil {
+			ev.G().PinLast()
 			t.Fatalf("C03 violated: %v", err)
 		}
 	default:
